@@ -23,7 +23,7 @@ RULE = ('(a) synthetic pairs of force fields: 1-4 residue types, from-blocks of 
         'sorted or shuffled, residue numbers with gaps. (b) charmm peptides (1-6 residues, termini modifications) '
         'through RepairGraph + CanonicalizeModifications and the shipped charmm->martini3001/martini22/elnedyn22 '
         'mappings, checked with invariants only. Non-trivial = >= 2 placements and >= 1 inter-placement input bond. '
-        'distinct = distinct (force fields, molecule) hashes. Also: two-residue (multi-residue) mappings whose pattern and target block span a bonded pair of residues that have no mapping of their own; atoms renamed upstream that are matched on _old_atomname; residues that share their number and differ in the insertion code; a second (alternative) mapping for one residue type on the same atoms; mappings with reference atoms.')
+        'distinct = distinct (force fields, molecule) hashes. Also: two-residue (multi-residue) mappings whose pattern and target block span a bonded pair of residues that have no mapping of their own; atoms renamed upstream that are matched on _old_atomname; residues that share their number and differ in the insertion code; a second (alternative) mapping for one residue type on the same atoms; mappings with reference atoms; a modification mapping that adds a particle, anywhere in the chain.')
 ASSUMPTIONS = ['when placements overlap or tie on their lowest key the order/attributes are ambiguous: only counts and the '
                'inconsistent-data warning are checked',
                'no demand on attributes other than atomname, resname, resid, _old_resid, graph, mapping_weights',
@@ -443,6 +443,86 @@ def check_synthetic(case, b):
     return None, info
 
 
+# ------------------------------------------------------------------ (a') modification mappings that add a particle
+def check_mod_particle(rnd, b):
+    """A chain of L residues RES (atoms A-B, mapped to one particle P); one or two residues carry the modification MOD (an atom X on
+    B), whose mapping keeps P and ADDS a particle PX.  X is listed with its residue or at the end of the molecule.  Expected:
+    residues numbered 1..L in order, PX numbered like the P it is attached to, input numbers retained as _old_resid."""
+    from vermouth.forcefield import ForceField
+    from vermouth.molecule import Block, Link, Molecule
+    from vermouth.map_parser import Mapping
+    from vermouth.processors.do_mapping import do_mapping
+    ffa, ffb = ForceField(name='verif_c01_ma'), ForceField(name='verif_c01_mb')
+    ba = Block(force_field=ffa)
+    ba.name = 'RES'
+    for an in 'AB':
+        ba.add_atom({'atomname': an, 'resname': 'RES', 'resid': 1, 'atype': 'x', 'charge_group': 1})
+    ba.add_edge('A', 'B')
+    ffa.blocks['RES'] = ba
+    bb = Block(force_field=ffb)
+    bb.name = 'RES'
+    bb.add_atom({'atomname': 'P', 'resname': 'RES', 'resid': 1, 'atype': 'P1', 'charge_group': 1})
+    ffb.blocks['RES'] = bb
+    m = Mapping(ba, bb, {'A': {'P': 1}, 'B': {'P': 1}}, {}, ff_from=ffa, ff_to=ffb, extra=(), names=('RES',))
+    moda = Link(force_field=ffa)
+    moda.name = 'MOD'
+    moda.add_node('B', atomname='B', PTM_atom=False)
+    moda.add_node('X', atomname='X', PTM_atom=True, element='X')
+    moda.add_edge('B', 'X')
+    ffa.modifications['MOD'] = moda
+    modb = Link(force_field=ffb)
+    modb.name = 'MOD'
+    modb.add_node('P', atomname='P', PTM_atom=False)
+    modb.add_node('PX', atomname='PX', PTM_atom=True, atype='Q', charge_group=1)
+    modb.add_edge('P', 'PX')
+    ffb.modifications['MOD'] = modb
+    mm = Mapping(moda, modb, {'B': {'P': 1}, 'X': {'PX': 1}}, {}, ff_from=ffa, ff_to=ffb, extra=(), names=('MOD',), type='modification')
+    maps = {ffa.name: {ffb.name: {'RES': m, ('MOD',): mm}}}
+    L = rnd.randint(2, 7)
+    start = rnd.choice([1, 5, 0, 40])
+    modified = sorted(rnd.sample(range(L), rnd.choice([1, 1, 2]) if L > 2 else 1))
+    x_last = rnd.random() < 0.4
+    mol = Molecule(force_field=ffa)
+    k, prev, later = 0, None, []
+    for ri in range(L):
+        resid = start + ri
+        a = k
+        mol.add_node(k, atomname='A', resname='RES', resid=resid, chain='A', element='A')
+        k += 1
+        b_ = k
+        mol.add_node(k, atomname='B', resname='RES', resid=resid, chain='A', element='B')
+        k += 1
+        mol.add_edge(a, b_)
+        if prev is not None:
+            mol.add_edge(prev, a)
+        prev = b_
+        if ri in modified:
+            mol.nodes[a]['modifications'] = [moda]
+            mol.nodes[b_]['modifications'] = [moda]
+            if x_last:
+                later.append((b_, resid))
+            else:
+                mol.add_node(k, atomname='X', resname='RES', resid=resid, chain='A', element='X', PTM_atom=True, modifications=[moda])
+                mol.add_edge(b_, k)
+                k += 1
+    for b_, resid in later:
+        mol.add_node(k, atomname='X', resname='RES', resid=resid, chain='A', element='X', PTM_atom=True, modifications=[moda])
+        mol.add_edge(b_, k)
+        k += 1
+    out = do_mapping(mol, maps, ffb, attribute_keep=('chain',), attribute_must=('resname',), attribute_stash=('resid',))
+    b.hits += 1
+    got = sorted((d.get('resid'), d.get('atomname'), d.get('_old_resid')) for n, d in out.nodes(data=True))
+    want = sorted([(ri + 1, 'P', start + ri) for ri in range(L)] + [(ri + 1, 'PX', start + ri) for ri in modified])
+    if got != want:
+        return ('modification-particle/resid', {'observed_resid_name_oldresid': got, 'expected': want, 'modified_residues': modified,
+                                                'ptm_atoms_listed_last': x_last})
+    pe = {frozenset((out.nodes[u]['atomname'], out.nodes[u]['resid'], out.nodes[v]['atomname'], out.nodes[v]['resid'])) for u, v in out.edges}
+    for ri in modified:
+        if frozenset(('P', ri + 1, 'PX', ri + 1)) not in pe:
+            return ('modification-particle/bond', {'residue': ri + 1, 'edges': [sorted(map(str, e)) for e in pe][:8]})
+    return None
+
+
 # ------------------------------------------------------------------ (b) real mappings: invariants
 _REAL = {}
 
@@ -586,6 +666,19 @@ def run_case(params):
         rnd = harness.rng('C01', params['seed'], params['batch'])
         for j in range(params['n']):
             b.total += 1
+            if j % 10 == 9:
+                try:
+                    pm = check_mod_particle(rnd, b)
+                except Exception as e:
+                    if not harness.from_repo(e):
+                        raise
+                    import traceback
+                    pm = ('modification-particle/exception/%s' % type(e).__name__, {'error': repr(e), 'trace': traceback.format_exc()[-700:]})
+                if pm:
+                    b.violation(pm[0], 'mapped molecule differs from the reference mapper (%s)' % pm[0], {'subcase': j, 'detail': pm[1]})
+                else:
+                    b.feat('modification_mapping_adds_particle_cases')
+                continue
             case = gen_case(rnd)
             try:
                 with harness.sub_alarm(15):
